@@ -668,6 +668,11 @@ def m_startswith(ex, self, args, kw):
         return s.segs[0].startswith(p)
     if isinstance(p, str) and s.segs and isinstance(s.segs[0], Atom) and s.segs[0].forbidden(p[0]):
         return False
+    if p == "-" and s.segs and isinstance(s.segs[0], FloatAtom):
+        # the rendering of a number begins with the minus sign exactly when the number is negative (reals: no -0.0, no NaN)
+        return to_real(s.segs[0].term) < 0
+    if p == "-" and s.segs and isinstance(s.segs[0], IntAtom):
+        return to_z3(s.segs[0].term) < 0
     if isinstance(p, str) and p and s.segs and isinstance(s.segs[0], NameAtom) and not any(s.segs[0].forbidden(ch) for ch in p):
         # a free name may or may not begin with the given literal: both are explored.  One question per name and path (two
         # different prefixes of one name are related - 'ab' implies 'a' - which independent choices would not respect)
